@@ -365,3 +365,15 @@ def trailing_colon_trim(pattern, repl):
     if len(t) == 2:
         return repl == ""
     return repl in ("\\1", "\\g<1>") and len(t) == 3 and t[0][0] == SUBPATTERN
+
+
+def end_sensitive_constructs(pattern):
+    """constructs whose outcome depends on what FOLLOWS the match up to the end of the string: $ / \\Z anchors and look-aheads"""
+    from re._constants import AT_END, AT_END_STRING
+    out = []
+    for op, av in walk(parse(pattern)):
+        if op == AT and av in (AT_END, AT_END_STRING):
+            out.append("anchor %s" % str(av).lower())
+        elif op in (ASSERT, ASSERT_NOT) and av[0] == 1:
+            out.append("look-ahead")
+    return out
